@@ -207,7 +207,7 @@ class Report(object):
             obligations_unknown=int(agg.get('ob_unknown', 0)),
             solver_queries=int(agg.get('queries', 0)),
             solver_time_s=round(agg.get('solver_s', 0.0), 3),
-            forks=int(agg.get('forks', 0)),
+            forks=int(agg.get('forks', 0)), solver_retries=int(agg.get('retries', 0)),
             second_solver=dict(queries=int(agg.get('second_solver_queries', 0)), agree=int(agg.get('second_solver_agree', 0)),
                                inconclusive=int(agg.get('second_solver_inconclusive', 0)), errors=int(agg.get('second_solver_errors', 0)),
                                binary='/usr/bin/z3 4.8.12'),
